@@ -14,11 +14,22 @@ import TinsModel.Matching.Out
   * `reject`  — `b` differs from the mirrored reply in a *matched* field.  Matched fields: reply
                 destination address (unless the request source is the unspecified IPv4 address);
                 reply source address unless the request destination is broadcast / multicast; both
-                ports; ICMP / ICMPv6 reply type, identifier, sequence number; DNS id; VLAN id.  The layers in front of the
-                differing field must be well formed (otherwise the field is not that field);
-  * `unspec`  — anything else (truncated or differently shaped packet, a differing unmatched field, an
-                ICMP destination-unreachable quoting the request — answered by a third party and outside
-                the mirrored-reply relation).
+                ports; ICMP / ICMPv6 reply type, identifier, sequence number; DNS id; VLAN id; BootP / DHCP
+                transaction id; DHCPv6 transaction id and "the reply is not a relay message"; ARP sender and
+                target protocol address.  The layers in front of the differing field must be well formed
+                (otherwise the field is not that field);
+  * `unspec`  — anything else (truncated or differently shaped packet, a differing unmatched field).
+
+  Second kind of accepted reply (RFC 792 / RFC 1122 §3.2.2.1): an IPv4 packet carrying an ICMP destination
+  unreachable whose quoted datagram starts with the 20 octets of the request's IPv4 header exactly as the request
+  was sent — whoever sent it and whatever follows the quoted header (`quotesRequest`).
+
+  Link layers of the request: Ethernet II, IEEE 802.3, 802.1Q tags (nested any number of times), the BSD loopback
+  family word, a RadioTap capture header.  Network: IPv4 (reply with any option list), IPv6 (reply with any chain of
+  hop-by-hop / routing / fragment / destination-options / mobility headers, `skipExts`).  Above: TCP (ports only —
+  SYN-ACK and RST alike, any option list), UDP, ICMP echo / timestamp / address-mask, ICMPv6 echo, DNS, BootP / DHCP
+  (transaction id; the opcode is not matched), DHCPv6 client / server messages (3-octet transaction id, the reply is
+  not a relay message), ARP (protocol addresses swapped; the opcode is not matched).
 -/
 namespace Tins.Matching
 
@@ -45,6 +56,10 @@ inductive SLayer where
   | dns (id : Bytes)
   | payload                        -- opaque bytes: nothing to match
   | radiotap                       -- capture header in front of the frame: nothing to match
+  | loopback (family : Bytes)      -- BSD loopback / DLT_NULL: the 4-byte address family word (a tag, not matched)
+  | bootp (xid : Bytes)            -- BootP / DHCP: 4-byte transaction id
+  | dhcpv6 (hdr : Bytes)           -- DHCPv6 client/server message: msg-type (1) + transaction id (3) as sent
+  | arp (spa tpa : Bytes)          -- ARP: sender / target protocol address (4 + 4)
 deriving Repr, DecidableEq
 
 inductive Verdict where
@@ -60,12 +75,15 @@ def Verdict.weaken : Verdict → Verdict
 def field (equal matched : Bool) (k : Verdict) : Verdict :=
   if equal then k else if matched then .reject else k.weaken
 
-/-- the EtherType announcing the next layer (`none`: no constraint) -/
-def etherTypeOf : List SLayer → Option Bytes
-  | .vlan _ :: _ => some [0x81, 0x00]
-  | .ip4 _ :: _ => some [0x08, 0x00]
-  | .ip6 _ _ :: _ => some [0x86, 0xdd]
-  | _ => none
+/-- the EtherTypes that may announce the next layer (`[]`: no constraint).  A VLAN tag is announced by the customer
+    tag type 0x8100, the 802.1ad service tag type 0x88a8 (what the outer of two nested tags carries) or the
+    pre-standard 0x9100. -/
+def etherTypeOf : List SLayer → List Bytes
+  | .vlan _ :: _ => [[0x81, 0x00], [0x88, 0xa8], [0x91, 0x00]]
+  | .ip4 _ :: _ => [[0x08, 0x00]]
+  | .ip6 _ _ :: _ => [[0x86, 0xdd]]
+  | .arp _ _ :: _ => [[0x08, 0x06]]
+  | _ => []
 
 /-- the IP protocol number announcing the next layer -/
 def ipProtoOf : List SLayer → Option UInt8
@@ -75,10 +93,7 @@ def ipProtoOf : List SLayer → Option UInt8
   | .icmp6echo _ _ :: _ => some 58
   | _ => none
 
-def tagOk (want : Option Bytes) (got : Bytes) : Bool :=
-  match want with
-  | none => true
-  | some t => t == got
+def tagOk (want : List Bytes) (got : Bytes) : Bool := want.isEmpty || want.contains got
 
 /-- IPv6 extension headers and other non-transport next-header values (RFC 8200 §4, IANA) -/
 def isV6Extension (h : UInt8) : Bool :=
@@ -99,6 +114,35 @@ def ip4IsGroup (a : Bytes) : Bool := a == [255, 255, 255, 255] || (a.headD 0).to
 def ip6IsMulticast (a : Bytes) : Bool := a.getD 0 0 == 255
 
 def vid (tci : Bytes) : Nat := ((tci.getD 0 0).toNat % 16) * 256 + (tci.getD 1 0).toNat
+
+/-- the IPv6 extension headers a reply may carry between the fixed header and the upper layer, all with the layout
+    `next header (1) | length (1) | …`: hop-by-hop options (0), routing (43), fragment (44), destination options (60),
+    mobility (135).  (ESP 50, AH 51 — other length unit —, no-next-header 59, HIP 139, shim6 140, 253/254 are not
+    followed: a reply that needs them skipped has no clause.) -/
+def v6Walkable (h : UInt8) : Bool := h == 0 || h == 43 || h == 44 || h == 60 || h == 135
+
+/-- Follow the chain of extension headers in front of the upper-layer header: `some (p, rest)` = the upper layer has
+    protocol `p` and starts at `rest`; `none` = no clause.  A header of `(len + 1) * 8` octets must be whole **and be
+    followed by at least one octet** (a packet ending in an extension header has no upper layer).  A fragment header
+    (RFC 8200 §4.5) is 8 octets, is sent with its reserved octet zero, and only the first fragment (offset 0) carries
+    the upper-layer header.  Every step consumes ≥ 8 octets: `fuel = length` is the unbounded walk (`skipExts_fuel`). -/
+def skipExts : Nat → UInt8 → Bytes → Option (UInt8 × Bytes)
+  | 0, cur, b => if v6Walkable cur then none else some (cur, b)
+  | fuel + 1, cur, b =>
+    if v6Walkable cur then
+      let n := ((b.getD 1 0).toNat + 1) * 8
+      if n < b.length then
+        if cur == 44 && !(b.getD 1 0 == 0 && b.getD 2 0 == 0 && (b.getD 3 0).toNat / 8 == 0) then none
+        else skipExts fuel (b.getD 0 0) (b.drop n)
+      else none
+    else some (cur, b)
+
+/-- what is demanded behind the extension headers: the upper layer must be the announced one -/
+def v6Cont (ok : UInt8 → Bool) (k : Bytes → Verdict) : Option (UInt8 × Bytes) → Verdict
+  | some (p, b') => if ok p then k b' else .unspec
+  | none => .unspec
+
+def isRelayType (t : UInt8) : Bool := t == 12 || t == 13
 
 /-- RFC 792 destination unreachable carrying exactly the request's IPv4 header -/
 def quotesRequest (hdr b : Bytes) (hl : Nat) : Bool :=
@@ -124,7 +168,7 @@ def demand : List SLayer → Bytes → Verdict
     if v / 16 != 4 || v % 16 < 5 then .unspec else
     let hl := (v % 16) * 4
     if b.length < hl then .unspec else
-    if quotesRequest hdr b hl then .unspec else
+    if quotesRequest hdr b hl then .accept else
     let src := slice hdr 12 4
     let dst := slice hdr 16 4
     let cont := if protoOk (ipProtoOf rest) (b.getD 9 0) then demand rest (b.drop hl) else .unspec
@@ -132,7 +176,7 @@ def demand : List SLayer → Bytes → Verdict
   | .ip6 src dst :: rest, b =>
     if b.length < 40 then .unspec else
     if (b.getD 0 0).toNat / 16 != 6 then .unspec else
-    let cont := if protoOk (ipProtoOf rest) (b.getD 6 0) then demand rest (b.drop 40) else .unspec
+    let cont := v6Cont (protoOk (ipProtoOf rest)) (fun b' => demand rest b') (skipExts (b.length - 40) (b.getD 6 0) (b.drop 40))
     field (slice b 24 16 == src) true (field (slice b 8 16 == dst) (!ip6IsMulticast dst) cont)
   | .tcp sport dport :: rest, b =>
     if b.length < 20 then .unspec else
@@ -158,5 +202,82 @@ def demand : List SLayer → Bytes → Verdict
     if b.length < 8 then .unspec else
     let itLen := (b.getD 2 0).toNat + (b.getD 3 0).toNat * 256
     if itLen < 8 || b.length < itLen then .unspec else demand rest (b.drop itLen)
+  | .loopback family :: rest, b =>
+    if b.length < 4 then .unspec else
+    if slice b 0 4 == family then demand rest (b.drop 4) else .unspec
+  | .bootp xid :: _, b =>
+    if b.length < 236 then .unspec else
+    field (slice b 4 4 == xid) true .accept
+  | .dhcpv6 hdr :: _, b =>
+    if isRelayType (hdr.getD 0 0) then .unspec else
+    if b.length < 4 then .unspec else
+    field (!isRelayType (b.getD 0 0)) true (field (slice b 1 3 == slice hdr 1 3) true .accept)
+  | .arp spa tpa :: _, b =>
+    if b.length < 28 then .unspec else
+    field (slice b 14 4 == tpa) true (field (slice b 24 4 == spa) true .accept)
+
+/-! ### RFC 8200 to the letter (known finding KF-C14-5)
+
+`skipExts` above follows fragment headers whose reserved octet is zero — what a conforming peer sends.  RFC 8200 §4.5
+also says what a *receiver* does with that octet: "ignored on reception".  `skipExtsRFC` is the walk of such a receiver
+(a fragment header is 8 octets whatever the octet holds); `rfcView` rewrites a reply into the one a receiver treats it
+like (every reserved octet zeroed), which is how the run-time oracle decides replies the walk of libtins does not
+follow. -/
+
+def skipExtsRFC : Nat → UInt8 → Bytes → Option (UInt8 × Bytes)
+  | 0, cur, b => if v6Walkable cur then none else some (cur, b)
+  | fuel + 1, cur, b =>
+    if v6Walkable cur then
+      let n := if cur == 44 then 8 else ((b.getD 1 0).toNat + 1) * 8
+      if n < b.length then
+        if cur == 44 && !(b.getD 2 0 == 0 && (b.getD 3 0).toNat / 8 == 0) then none
+        else skipExtsRFC fuel (b.getD 0 0) (b.drop n)
+      else none
+    else some (cur, b)
+
+/-- the receiver's walk meets a whole fragment header whose reserved octet is not zero -/
+def fragReservedSet : Nat → UInt8 → Bytes → Bool
+  | 0, _, _ => false
+  | fuel + 1, cur, b =>
+    if v6Walkable cur then
+      let n := if cur == 44 then 8 else ((b.getD 1 0).toNat + 1) * 8
+      if n < b.length then
+        if cur == 44 && b.getD 1 0 != 0 then true
+        else if cur == 44 && !(b.getD 2 0 == 0 && (b.getD 3 0).toNat / 8 == 0) then false
+        else fragReservedSet fuel (b.getD 0 0) (b.drop n)
+      else false
+    else false
+
+/-- the chain with the reserved octet of every fragment header zeroed -/
+def zeroFragReserved : Nat → UInt8 → Bytes → Bytes
+  | 0, _, b => b
+  | fuel + 1, cur, b =>
+    if v6Walkable cur then
+      let n := if cur == 44 then 8 else ((b.getD 1 0).toNat + 1) * 8
+      if n < b.length then
+        (if cur == 44 then b.take 1 ++ (0 :: (b.take 8).drop 2) else b.take n) ++
+          zeroFragReserved fuel (b.getD 0 0) (b.drop n)
+      else b
+    else b
+
+/-- the reply as a receiver that ignores the reserved octets sees it (link layers are skipped by their sizes) -/
+def rfcView : List SLayer → Bytes → Bytes
+  | .eth _ _ :: r, b => b.take 14 ++ rfcView r (b.drop 14)
+  | .dot3 _ _ :: r, b => b.take 14 ++ rfcView r (b.drop 14)
+  | .vlan _ :: r, b => b.take 4 ++ rfcView r (b.drop 4)
+  | .loopback _ :: r, b => b.take 4 ++ rfcView r (b.drop 4)
+  | .radiotap :: r, b =>
+    let itLen := (b.getD 2 0).toNat + (b.getD 3 0).toNat * 256
+    if itLen < 8 || b.length < itLen then b else b.take itLen ++ rfcView r (b.drop itLen)
+  | .ip6 _ _ :: _, b =>
+    if b.length < 40 then b else b.take 40 ++ zeroFragReserved (b.length - 40) (b.getD 6 0) (b.drop 40)
+  | _, b => b
+
+/-- what RFC 8200 demands beyond `demand`: where `demand` has no clause only because of a reserved octet, the reply
+    is to be treated like its `rfcView` -/
+def demandRFC (r : List SLayer) (b : Bytes) : Verdict :=
+  match demand r b with
+  | .unspec => if rfcView r b != b then demand r (rfcView r b) else .unspec
+  | v => v
 
 end Tins.Matching
